@@ -617,7 +617,7 @@ func (c *c01) opBit(nodes *[]*bitNode) {
 		*nodes = append(*nodes, &bitNode{r: nr, m: nd.m, pos: 0, shape: nd.shape})
 	case 9: // byte view of the remainder via a clone: io.ReadAll(NewIOReader(clone))
 		cl, ok := nd.r.(bitio.ReaderAtSeekerCloner)
-		if !ok || L > 1<<16 {
+		if !ok || L > 1<<23 {
 			return
 		}
 		nr, err := cl.CloneReaderAtSeeker()
